@@ -42,6 +42,8 @@ def _expand(pattern, grid):
             out.append(list(grid))
         elif p == 'R':
             out.append(1)
+        elif p == 'Arev':
+            out.append([int(grid[1]), int(grid[0])])      # the same two communicators, listed in the other order
         else:
             out.append(int(grid[p]))
     return out
@@ -53,8 +55,39 @@ def gen(rng, tier, idx):
         grid[1] = grid[0]                         # equal extents: ambiguous communicator choice
     while grid[0] * grid[1] > 12:
         grid[rng.randrange(2)] -= 1
-    family = 'driver' if rng.random() < 0.6 else 'random'
-    if family == 'driver':
+    fr = rng.random()
+    family = 'driver' if fr < 0.5 else ('two2d' if fr < 0.7 else 'random')
+    if family == 'two2d':
+        # several groups distributed over both process directions: the constructor has to work out which
+        # communicator carries which dimension in each group (by size; by a heuristic when the extents are equal)
+        if rng.random() < 0.6:
+            grid[1] = grid[0] = rng.choice([2, 2, 3])
+        ndim = rng.choice([3, 4, 4])
+        perms = [list(p) for p in itertools.permutations(range(ndim))]
+        base = list(rng.choice(perms))
+        names = iter(cm.LAYOUT_NAMES)
+        groups, kinds = [], []
+        for gi in range(rng.choice([2, 2, 3])):
+            g = {}
+            for li in range(rng.choice([1, 2, 2, 3])):
+                r2 = rng.random()
+                if r2 < 0.4:
+                    o = list(base)                          # same ordering as a layout of another group
+                elif r2 < 0.8:
+                    o = list(base)
+                    i, j = rng.sample(range(ndim), 2)
+                    o[i], o[j] = o[j], o[i]
+                else:
+                    o = list(rng.choice(perms))
+                g[next(names)] = o
+                if rng.random() < 0.4:
+                    base = list(o)
+            groups.append(g)
+            kinds.append('A' if gi == 0 else rng.choice(['A', 'A', 'Arev', 0, 1]))
+        nprocs = _expand(kinds, grid)
+        family = 'random'           # any constructor exception on every rank is a refusal
+        two2d = True
+    elif family == 'driver':
         groups, pattern = DRIVER[rng.choice([0, 0, 0, 1, 1, 2])]
         groups = [dict(g) for g in groups]
         ndim = len(next(iter(groups[0].values())))
@@ -62,7 +95,7 @@ def gen(rng, tier, idx):
     else:
         ndim = rng.choice([3, 3, 4])
         ng = rng.choice([1, 2, 2, 3, 3, 4])
-        kinds = [rng.choice(['A', 0, 1, 'R']) for _ in range(ng)]
+        kinds = [rng.choice(['A', 'Arev', 0, 1, 'R']) for _ in range(ng)]
         kinds[0] = 'A'     # the most distributed group must span the communicator
         perms = [list(p) for p in itertools.permutations(range(ndim))]
         groups = []
@@ -122,7 +155,7 @@ def gen(rng, tier, idx):
         walk.append([start, bool(rng.random() < 0.5)])
     sched = simworld.random_sched(rng, 0)
     sched['poison'] = rng.random() < 0.7
-    return dict(P=grid[0] * grid[1], grid=grid, family=family, groups=[[list(map(list, g.items()))][0] for g in groups],
+    return dict(P=grid[0] * grid[1], grid=grid, family=family, two2d=bool(locals().get('two2d')), groups=[[list(map(list, g.items()))][0] for g in groups],
                 nprocs=nprocs, shape=shape, start=start, walk=walk,
                 dtype=rng.choice(['float64', 'complex128']), sched=sched)
 
@@ -225,6 +258,8 @@ def run(case, tape=None):
         if 1 in case['grid'] and P > 1:
             probes['grid_extent_1'] = 1
         probes['family_' + case['family']] = 1
+        if case.get('two2d'):
+            probes['several_2d_groups'] = 1
         return dict(nontrivial=(P > 1 and (ng + na) > 0), probes=probes)
 
     return execute(ID, P, case['sched'], tape, rank_fn, post)
